@@ -85,7 +85,7 @@ pub fn gen_wild(t: &mut Tape, o: &GenOpts) -> (Item, Vec<String>) {
     let (mut item, mut labels) = gen_item(t, o);
     let k = 1 + t.weighted(&[4, 4, 3, 2, 1, 1]);
     for _ in 0..k {
-        let m = t.below(12);
+        let m = t.below(13);
         match m {
             0 | 1 | 2 => {
                 // insert a wild attribute at a random site
@@ -218,6 +218,22 @@ pub fn gen_wild(t: &mut Tape, o: &GenOpts) -> (Item, Vec<String>) {
                         labels.push("wild:empty-tuple".into());
                     }
                 }
+            }
+            11 => {
+                // #[o2o(allow_unknown)] first, then somebody else's attribute in `name = value` form on the type or on a member
+                item.attrs.insert(0, Attr::wrapped(vec![Instr::AllowUnknown]));
+                let foreign = Attr::Foreign(t.pick(&["must_use = \"x\"", "deprecated = \"y\"", "zzz = 1", "where_clause = \"T: Copy\""]).to_string());
+                let mut sites = 0;
+                item.for_each_attr_list(&mut |_, _| sites += 1);
+                let target = t.below(sites);
+                let mut idx = 0;
+                item.for_each_attr_list_mut(&mut |_, l| {
+                    if idx == target {
+                        l.push(foreign.clone());
+                    }
+                    idx += 1;
+                });
+                labels.push("wild:allow_unknown+name-value-attr".into());
             }
             10 => {
                 // a structure-preserving recombination (change a hint or a kind set, named <-> tuple, swap the attribute lists of
